@@ -124,7 +124,7 @@ def proof(out, name):
 
 
 def run(out, tier, seed, name):
-    for cfg in (("quick", "quick_notes") if tier == "quick" else ("thorough",)):
+    for cfg in (("quick", "quick_notes") if tier == "quick" else ("thorough", "thorough_services")):
         r = C.tlc("MC_Deploy", "MC_Deploy_%s.cfg" % cfg, "mc", "%s-deploy-mc-%s" % (name, cfg), workers=8 if tier == "quick" else 14, timeout=7200, heap="16g")
         C.tlc_must_pass(r, "MC_Deploy")
         out.add_tlc(r)
